@@ -36,6 +36,7 @@ type session struct {
 	canaryV  []byte
 	io       *ioLog
 	df       *dfSession
+	ixs      *ixSession
 }
 
 func newSession(base string) *session {
@@ -266,6 +267,9 @@ func (s *session) exec(line string) (res string) {
 	}
 	if strings.HasPrefix(op, "df.") {
 		return s.execDF(op, a)
+	}
+	if strings.HasPrefix(op, "ix.") || strings.HasPrefix(op, "ixit.") {
+		return s.execIX(op, a)
 	}
 	if strings.HasPrefix(op, "dt.") {
 		return s.execDT(op, a)
